@@ -291,9 +291,7 @@ theorem checkOptions_le_gate (r : Rule) (q : Request) (h : checkOptions r q = tr
 
 /-- the badfilter and party components of the reference semantics -/
 def refGate (opts : List NOpt) (thirdParty : Bool) : Bool :=
-  let only3p := opts.any (fun o => o == .thirdParty true || o == .firstParty false)
-  let only1p := opts.any (fun o => o == .thirdParty false || o == .firstParty true)
-  !opts.any (· == .badfilter) && ((thirdParty || !only3p) && (!thirdParty || !only1p))
+  !opts.any (· == .badfilter) && refPartyOk opts thirdParty
 
 theorem refOptions_le_gate (a : Abstract) (oq : OReq) (h : refOptions a oq = true) :
     refGate (a.options.getD []) oq.thirdParty = true := by
@@ -313,7 +311,7 @@ theorem parsed_gate_eq_ref (line : Str) (r : Rule) (h : parseNetwork line = .ok 
   refine ⟨parsed, hpa, ?_⟩
   intro q
   obtain ⟨_, hbad, _, _, _, _, _, h3, h1⟩ := hf
-  unfold flagsGate refGate
+  unfold flagsGate refGate refPartyOk
   rw [hbad, h3, h1]
   cases q.thirdParty <;> simp
 
